@@ -34,7 +34,12 @@ def _spawn(job: dict, hashseed: int) -> subprocess.Popen:     # type: ignore[typ
     env['PYTHONPATH'] = VERIF + os.pathsep + env.get('PYTHONPATH', '')
     env['PYTHONDONTWRITEBYTECODE'] = '1'
     env.pop('PYTHONWARNINGS', None)
-    return subprocess.Popen([PY, '-W', 'ignore', '-m', 'sim.worker', json.dumps(job)],
+    # the job goes through a file: a replay job carries the whole choice tape, which can exceed the argv limit
+    jf = job['out'] + '.job'
+    os.makedirs(os.path.dirname(jf), exist_ok=True)
+    with open(jf, 'w') as f:
+        json.dump(job, f)
+    return subprocess.Popen([PY, '-W', 'ignore', '-m', 'sim.worker', '@' + jf],
                             cwd=VERIF, env=env, stdout=subprocess.PIPE, stderr=subprocess.PIPE)
 
 
